@@ -80,8 +80,8 @@ func checkC05(r *Run) {
 	r7 := r.Rule("R-C05-7", "reject before write: ValidateMessage precedes publishImpl and rejects QoS > 2 and over-long payloads; RetryClient validates before issuing")
 	r8 := r.Rule("R-C05-8", "inbound PUBLISH carries exactly the parsed fields; its length guards are exact")
 	r1.Floor(34)
-	r2.Floor(9)
-	r4.Floor(6)
+	r2.Floor(6)
+	r4.Floor(4)
 	// ---- R-C05-1
 	names := make([]string, 0, len(specConsts))
 	for n := range specConsts {
